@@ -23,9 +23,10 @@ const (
 // engine, so ±30s margins are used instead of the instant.
 var ageShift = [...]time.Duration{0, time.Hour - 30*time.Second, time.Hour + 30*time.Second, 10 * time.Hour, 10 * time.Hour, 10 * time.Hour}
 
-// AgeStartsOnly: every Start time (plan and all objects, attempts included) is shifted by 10*max, every End time
-// stays fresh: "long objects". The most recent recorded activity is the freshest End, so the plan must be resumed as
-// soon as one End time is durable.
+// AgeStartsOnly: every Start time of the plan and of all its objects is shifted by 10*max and every End time of an
+// object stays fresh: "long objects" (attempts are aged as a whole, Start and End, so that the verdict does not depend
+// on whether attempt times count as activity). The most recent recorded activity is the freshest End, so the plan must
+// be resumed as soon as one object's End time is durable.
 const AgeStartsOnly = 5
 
 // AgePlanRowOnly: only the plan object's own times are shifted (by 10*max); every other object keeps its fresh times,
@@ -156,8 +157,14 @@ func RunStoreCase(c *StoreCase, res *vprop.Result) {
 				}
 				c.Attempts = CopyAttempts(w.Attempts)
 				for _, a := range c.Attempts {
+					// attempts are aged as a whole (Start and End): whether an attempt's End counts as "recorded
+					// activity" of the plan is not decided by the statement (the engine looks at object states only), so
+					// the class must not contain plans whose only fresh time stamp is an attempt's End
 					if a != nil && !a.Start.IsZero() {
 						a.Start = a.Start.Add(-d)
+					}
+					if a != nil && !a.End.IsZero() {
+						a.End = a.End.Add(-d)
 					}
 				}
 				if w.Create {
@@ -364,6 +371,7 @@ func RunStoreCase(c *StoreCase, res *vprop.Result) {
 				res.Fail("C11/stale-plan-left-running:"+kindOfTag(bad), "plan %s was closed as ExceedRecovery but %s is still Running: %s", ptag, bad, Describe(after))
 				return
 			}
+			vprop.Count("judged_stale_plans_closed", 1)
 		default:
 			// fresh Running plan: "exactly the plans durably in Running state are considered" — it is resumed
 			if pr.Stalled || rr.Stalled {
@@ -382,6 +390,10 @@ func RunStoreCase(c *StoreCase, res *vprop.Result) {
 				res.Fail("C11/live-plan-closed", "plan %s is Running with recent activity but was closed as ExceedRecovery", ptag)
 				return
 			}
+			vprop.Count("judged_live_plans_resumed_to_terminal", 1)
 		}
 	}
+	// counted after every skip point: floors on these turn a run in which the stores could not be built or read into
+	// INCONCLUSIVE instead of vacuously green
+	vprop.Count("stores_judged", 1)
 }
